@@ -251,6 +251,9 @@ def render_held(encs, sess, held):
             r['lines'] = encs.lines(sess, code, msg, msg, body)
             return r
         d = held['data']
+        # the API lines FIRST, as the reactor produces them: our own str()/json() calls below must not be what fills
+        # the memoised renderings the encoders then read
+        r['lines'] = encs.lines(sess, code, d, msg, body)
         r['announce'] = [[int(x.nlri.afi), int(x.nlri.safi), _safe(lambda: str(x.nlri)), _safe(lambda: x.nlri.json()),
                           _safe(lambda: str(x.nexthop)), _safe(lambda: bytes(x.nlri.index()).hex())] for x in d.announces]
         r['withdraw'] = [[int(x.afi), int(x.safi), _safe(lambda: str(x)), _safe(lambda: x.json()),
@@ -261,7 +264,7 @@ def render_held(encs, sess, held):
         r['attr_str'] = _safe(lambda: str(d.attributes))
         r['attr_json'] = _safe(lambda: d.attributes.json())
         r['attr_index'] = _safe(lambda: bytes(d.attributes.index()).hex())
-        r['lines'] = encs.lines(sess, code, d, msg, body)
+        r['attr_json_nexthop'] = _safe(lambda: d.attributes.json(include_nexthop=True))
         return r
     if code == 1:
         r['open'] = [_safe(lambda: int(msg.version)), _safe(lambda: int(msg.asn)), _safe(lambda: int(msg.hold_time)),
@@ -367,10 +370,20 @@ def unpack_key_shape():
     return (m.group(0) if m else '')[:1500]
 
 
+class LazySessions:
+    def __init__(self, specs):
+        self.specs, self.built = specs, {}
+
+    def __getitem__(self, i):
+        if i not in self.built:
+            self.built[i] = build_session(self.specs[i])
+        return self.built[i]
+
+
 def child_main(job_path, out_path):
     job = json.load(open(job_path))
     child_setup()
-    sessions = [build_session(s) for s in job['sessions']]
+    sessions = LazySessions(job['sessions'])  # a session exists from the first message that arrives on it
     encs = Encoders()
     mode = job['mode']
     out = {'mode': mode}
@@ -626,7 +639,81 @@ OPEN_CAPS = [
 EOR_BODIES = ['00000000', '00000007900f0003000201', '00000007900f0003000180']
 
 
-def gen_message(rng, vocab, nlris, conf_pool, prev_block, ap=False):
+SHAPES = ['ann', 'ann', 'ann', 'ann', 'wd+attrs', 'wd', 'attrs', 'reach', 'reach', 'unreach', 'unreach', 'unreach-first', 'both',
+          'unreach-only', 'ann+unreach', 'wd+unreach', 'ann+reach', 'trunc']
+V6_PREFIXES = ['40 2001 0db8 0000 0001', '40 2001 0db8 0000 0002', '30 2001 0db8 00aa', '20 2001 0db8']
+
+
+def v4_nlri(rng, nlris, ap):
+    """mostly well-formed for the session (path id present iff ADD-PATH was negotiated for ipv4 unicast); sometimes the
+    very same NLRI bytes whatever the session"""
+    if rng.random() < 0.2:
+        return bytes.fromhex(rng.choice(nlris))
+    out = b''
+    for _ in range(rng.choice([1, 1, 1, 2, 3])):
+        plain = bytes.fromhex(rng.choice(PLAIN_NLRIS))
+        out += (struct.pack('!L', rng.choice([1, 2, 7])) + plain) if ap else plain
+    return out
+
+
+def mp_parts(rng, ap6):
+    """(MP_REACH attribute, MP_UNREACH attribute) for this session kind"""
+    pid = (rng.choice([1, 7]) if ap6 else None) if rng.random() < 0.85 else (None if ap6 else 7)
+    r = rng.random()
+    if r < 0.6:
+        reach = mp_reach6(rng.choice(V6_PREFIXES), pathid=pid)
+    elif r < 0.8:
+        reach = mp_reach_vpn4(pathid=pid)
+    else:
+        reach = mp_reach_ext_nh()
+    n = b''
+    for _ in range(rng.choice([1, 1, 2])):
+        one = bytes.fromhex(rng.choice(V6_PREFIXES).replace(' ', ''))
+        n += (struct.pack('!L', pid) + one) if pid is not None else one
+    unreach = tlv(0x80, 15, struct.pack('!HB', 2, 1) + n)
+    return reach, unreach
+
+
+def assemble(parts):
+    return upd(bytes.fromhex(parts['attrs']), bytes.fromhex(parts['nlri']), bytes.fromhex(parts['wd']))
+
+
+def make_update(rng, block, shape, nlris, ap4, ap6):
+    """-> message dict with its parts (so that a repetition can keep the attribute bytes and change the NLRI)"""
+    reach, unreach = mp_parts(rng, ap6)
+    attrs, nlri, wd = block, b'', b''
+    if shape == 'ann':
+        nlri = v4_nlri(rng, nlris, ap4)
+    elif shape == 'wd+attrs':
+        wd = v4_nlri(rng, nlris, ap4)
+    elif shape == 'wd':
+        attrs, wd = b'', v4_nlri(rng, nlris, ap4)
+    elif shape == 'attrs':
+        pass
+    elif shape == 'reach':
+        attrs = block + reach
+    elif shape == 'unreach':
+        attrs = block + unreach
+    elif shape == 'unreach-first':
+        attrs = unreach + block
+    elif shape == 'both':
+        attrs = block + unreach + reach
+    elif shape == 'unreach-only':
+        attrs = unreach
+    elif shape == 'ann+unreach':
+        attrs, nlri = block + unreach, v4_nlri(rng, nlris, ap4)
+    elif shape == 'wd+unreach':
+        attrs, wd = block + unreach, v4_nlri(rng, nlris, ap4)
+    elif shape == 'ann+reach':
+        attrs, nlri = block + reach, v4_nlri(rng, nlris, ap4)
+    elif shape == 'trunc':
+        cut = rng.randrange(1, max(2, len(block)))
+        attrs, nlri = block[:cut], v4_nlri(rng, nlris, ap4)
+    parts = {'attrs': attrs.hex(), 'nlri': nlri.hex(), 'wd': wd.hex()}
+    return {'t': 2, 'hex': assemble(parts).hex(), 'block': block.hex(), 'parts': parts, 'shape': shape}
+
+
+def gen_message(rng, vocab, nlris, conf_pool, prev_block, ap=False, ap6=False):
     """-> message dict (session chosen by the caller)"""
     x = rng.random()
     if x < 0.74:
@@ -637,36 +724,12 @@ def gen_message(rng, vocab, nlris, conf_pool, prev_block, ap=False):
             block = rng.choice(vocab)
         else:
             block = b''.join([ORIGIN, tlv(0x40, 2, bytes.fromhex(rng.choice(ASPATHS))), NH])
-        z = rng.random()
-
-        def nl():
-            # mostly well-formed for the session (path id present iff ADD-PATH was negotiated for ipv4 unicast);
-            # sometimes the very same NLRI bytes whatever the session
-            if rng.random() < 0.25:
-                return bytes.fromhex(rng.choice(nlris))
-            plain = bytes.fromhex(rng.choice(PLAIN_NLRIS))
-            return (struct.pack('!L', rng.choice([1, 2, 7])) + plain) if ap else plain
-
-        if z < 0.70:
-            body = upd(block, nl())
-        elif z < 0.78:
-            body = upd(block, b'', nl())
-        elif z < 0.84:
-            body = upd(block)  # attributes only
-        elif z < 0.90:
-            body = upd(block + rng.choice([mp_reach6(), mp_reach6(pathid=7), mp_unreach6(), mp_unreach6(pathid=7),
-                                           mp_reach_ext_nh(), mp_reach_vpn4(), mp_reach_vpn4(pathid=1)]))
-        elif z < 0.95:
-            body = upd(rng.choice([mp_unreach6(), mp_unreach6(pathid=7), tlv(0x80, 15, struct.pack('!HB', 2, 1))]))
-        else:
-            cut = rng.randrange(1, max(2, len(block)))
-            body = upd(block[:cut], bytes.fromhex(rng.choice(nlris)))  # truncated attribute block
-        return {'t': 2, 'hex': body.hex(), 'block': block.hex()}
+        return make_update(rng, block, rng.choice(SHAPES), nlris, ap, ap6)
     if x < 0.80 and conf_pool:
         b = rng.choice(conf_pool)
-        return {'t': 2, 'hex': b['hex'], 'block': None, 'conf': b['conf']}
+        return {'t': 2, 'hex': b['hex'], 'block': None, 'conf': b['conf'], 'shape': 'conf'}
     if x < 0.83:
-        return {'t': 2, 'hex': rng.choice(EOR_BODIES + ['0000']), 'block': None}
+        return {'t': 2, 'hex': rng.choice(EOR_BODIES + ['0000']), 'block': None, 'shape': 'eor'}
     if x < 0.91:
         caps = rng.sample(OPEN_CAPS, rng.randrange(0, 7))
         body = open_body(rng.choice([65001, 23456, 64512]), caps, hold=rng.choice([0, 3, 90, 180]), one_param=rng.random() < 0.3)
@@ -683,6 +746,50 @@ def gen_message(rng, vocab, nlris, conf_pool, prev_block, ap=False):
     return {'t': 4, 'hex': '', 'block': None}
 
 
+def sess_ap(s):
+    spec = SESSIONS[s]
+    return (spec['addpath'] == 'all' or [1, 1] in spec['addpath']), spec['addpath'] == 'all'
+
+
+def repetitions(rng, m, nlris, vocab, sess_pool):
+    """immediate repetitions and near-repetitions of an UPDATE: the shortcut of AttributeCollection.unpack only fires
+    on consecutive identical attribute bytes"""
+    out = []
+    kind = rng.choice(['same', 'same', 'same3', 'nlri', 'nlri', 'other-session', 'near', 'same-then-nlri'])
+    ap4, ap6 = sess_ap(m['s'])
+
+    def clone(**kw):
+        c = {k: (dict(v) if isinstance(v, dict) else v) for k, v in m.items()}
+        c.update(kw)
+        return c
+
+    def renlri():
+        if 'parts' not in m:
+            return clone()
+        p = dict(m['parts'])
+        if p['nlri'] or not p['wd']:
+            p['nlri'] = v4_nlri(rng, nlris, ap4).hex() if (p['nlri'] or rng.random() < 0.5) else ''
+        if p['wd']:
+            p['wd'] = v4_nlri(rng, nlris, ap4).hex()
+        return clone(parts=p, hex=assemble(p).hex())
+
+    if kind == 'same':
+        out = [clone()]
+    elif kind == 'same3':
+        out = [clone(), clone()]
+    elif kind == 'nlri':
+        out = [renlri()]
+    elif kind == 'same-then-nlri':
+        out = [clone(), renlri()]
+    elif kind == 'other-session':
+        out = [clone(s=rng.choice(sess_pool))]
+    elif kind == 'near' and m.get('block') and 'parts' in m:
+        near = make_update(rng, rng.choice(vocab), m['shape'], nlris, ap4, ap6)
+        near['s'] = m['s']
+        out = [near, clone()]
+    return out
+
+
 def gen_sequence(rng, sid, length, conf_pool):
     vocab = attr_vocabulary(rng)
     if rng.random() < 0.5:
@@ -690,17 +797,46 @@ def gen_sequence(rng, sid, length, conf_pool):
     nlris = rng.sample(NLRIS, 3)
     msgs, prev = [], None
     sess_pool = rng.sample(range(len(SESSIONS)), rng.choice([2, 3, 4, 4, 5]))
-    for _ in range(length):
+    while len(msgs) < length:
         sess = rng.choice(sess_pool)
-        spec = SESSIONS[sess]
-        m = gen_message(rng, vocab, nlris, conf_pool, prev, ap=(spec['addpath'] == 'all' or [1, 1] in spec['addpath']))
+        ap4, ap6 = sess_ap(sess)
+        m = gen_message(rng, vocab, nlris, conf_pool, prev, ap=ap4, ap6=ap6)
         m['s'] = sess
         if m['t'] == 2 and m.get('block'):
             prev = bytes.fromhex(m['block'])
         if m['t'] == 2 and m['hex'] in EOR_BODIES and rng.random() < 0.5:
             m['entry'] = 'check'  # configuration/check.py + decode CLI entry point: EOR singletons
         msgs.append(m)
-    return {'id': sid, 'messages': msgs}
+        if m['t'] == 2 and m.get('entry') != 'check' and rng.random() < 0.45:
+            msgs += repetitions(rng, m, nlris, vocab, sess_pool)
+    return {'id': sid, 'messages': msgs[:length]}
+
+
+def shape_sequences():
+    """EVERY update shape, repeated immediately on the same session (twice, thrice), with other NLRI bytes under the
+    same attribute bytes, and on another session"""
+    rng = random.Random(1919)
+    seqs = []
+    blocks = [ORIGIN + tlv(0x40, 2, b'') + NH + tlv(0x80, 4, (100).to_bytes(4, 'big')),
+              ORIGIN + tlv(0x40, 2, bytes.fromhex('020100010002')) + NH + tlv(0xC0, 8, bytes.fromhex('fde80001'))]
+    for shape in sorted(set(SHAPES)):
+        for s in (0, 2, 3):
+            ap4, ap6 = sess_ap(s)
+            for blk in blocks:
+                x = make_update(rng, blk, shape, NLRIS[:3], ap4, ap6)
+                x['s'] = s
+                p = dict(x['parts'])
+                if p['nlri']:
+                    p['nlri'] = v4_nlri(rng, NLRIS[:3], ap4).hex()
+                if p['wd']:
+                    p['wd'] = v4_nlri(rng, NLRIS[:3], ap4).hex()
+                if not p['nlri'] and not p['wd']:
+                    p['nlri'] = v4_nlri(rng, NLRIS[:3], ap4).hex()
+                y = dict(x, parts=p, hex=assemble(p).hex())
+                seqs.append([dict(x), dict(x), dict(x)])
+                seqs.append([dict(x), y, dict(x)])
+                seqs.append([dict(x), dict(x, s=4 if s != 4 else 0), dict(x)])
+    return seqs
 
 
 def directed_sequences():
@@ -735,7 +871,7 @@ def directed_sequences():
     for h in ('00000000', '00000007900f0003000201'):
         seqs.append([{'s': 0, 't': 2, 'hex': h, 'block': None, 'entry': 'check'}, {'s': 2, 't': 2, 'hex': h, 'block': None, 'entry': 'check'},
                      {'s': 0, 't': 2, 'hex': h, 'block': None}])
-    return seqs
+    return seqs + shape_sequences()
 
 
 # ------------------------------------------------------------------------------- comparison
@@ -853,7 +989,10 @@ def check(tier, seed):
     run.obligation('in-sequence decoding ran (one long-running interpreter per chunk, nothing reset)', ok,
                    '\n'.join(l for r, l in seq_res if r is None)[-2000:])
     run.notes.append(f'seq done at {round(time.time() - t0, 1)}s')
-    parts = common.chunked(dkeys, max(1, (len(dkeys) + workers - 1) // workers))
+    parts = []
+    per = max(1, (len(dkeys) + workers - 1) // workers)
+    for si in range(len(SESSIONS)):
+        parts += common.chunked([k for k in dkeys if k[0] == si], per)
     clr_jobs = [{'mode': 'cleared', 'sessions': SESSIONS, 'messages': [distinct[k] for k in part]} for part in parts]
     clr_res = run_children(clr_jobs, 'clr', workers)
     ok2 = all(r is not None for r, _ in clr_res)
@@ -946,11 +1085,11 @@ def check(tier, seed):
                 if 'exc' in u[0]:
                     got = [-1 - eid(u[0]['exc'])]
                 elif len(u) > 1:
-                    got = [-1 - eid(u[1]['exc'])] if 'exc' in u[1] else [-3] + flat(u[1]['items'])
+                    got = [-1 - eid(u[1]['exc'])] if 'exc' in u[1] else flat(u[0]['items']) + [-3] + flat(u[1]['items'])
                 elif o['outcome'] == 'update':
-                    got = flat(o['render']['attrs'])
+                    got = flat(u[0]['items']) + [-7] + flat(o['render']['attrs'])
                 else:
-                    got = flat(u[0]['items'], drop_mp=True)
+                    got = flat(u[0]['items']) + [-7] + flat(u[0]['items'], drop_mp=True)
                 impl_obs.append(got)
                 where.append((si, mi))
         if not events:
@@ -1030,6 +1169,10 @@ def check(tier, seed):
                 f'truncations), 6% bodies packed by the project encoder from etc/exabgp/*.conf, OPEN / NOTIFICATION / ROUTE-REFRESH / '
                 f'KEEPALIVE / EOR; {len(chunks)} long-running interpreters; non-trivial = distinct (session, UPDATE or OPEN body)',
         'outcomes_in_sequence': dict(hits),
+        'update_shapes': dict(collections.Counter(m.get('shape', '-') for sq in sequences for m in sq['messages'] if m['t'] == 2)),
+        'immediate_repetitions_same_session_same_attribute_bytes': sum(
+            1 for sq in sequences for a, b in zip(sq['messages'], sq['messages'][1:])
+            if a['t'] == 2 and b['t'] == 2 and a['s'] == b['s'] and a.get('parts') and b.get('parts') and a['parts']['attrs'] == b['parts']['attrs']),
         'distinct_messages': len(dkeys),
         'route_derived_bodies': len(conf_pool),
         'fresh_interpreter_sample': len(sample),
@@ -1091,6 +1234,10 @@ def report_violations(run, viol, chunks, cleared, rng):
                 tname = describe_msg(t)['type']
                 # the negotiated parameter the differing attribute's decoder reads (aspath.py, aggregator.py, aigp.py)
                 cause = 'asn4' if set(codes) & {2, 7, 17, 18} else 'aigp' if 26 in codes else 'attributes=' + (','.join(map(str, codes)) or '-')
+                if not codes and isinstance(o.get('render'), dict) and isinstance(base.get('render'), dict):
+                    lost = [k for k in ('announce', 'withdraw') if o['render'].get(k) != base['render'].get(k)]
+                    if lost:
+                        cause = 'routes:' + ','.join(lost)
                 sig = f'stale-decode:{tname}:{cause}'
                 rank = (p['hex'] != t['hex'], nparams(p, t), len(t['hex']))
                 if sig not in best or rank < best[sig][0]:
